@@ -219,12 +219,13 @@ def _real_worker(case):
     try:
         lm = mapper.build_model(initial_labels=il)
     except Exception as e:  # noqa: BLE001
-        return dict(out, build=_exc(e), attrs=attrs_of(mapper))
+        return dict(out, build=_exc(e), attrs=attrs_of(mapper), dims=real_dims(case, base))
     if il != il_keep:
         # the caller's labelling request is not the library's to change (it is typically reused for the next build)
         return dict(out, build={"err": ["caller's initial_labels dict was modified by build_model"]}, attrs=attrs_of(mapper))
     out["build"] = {"ok": True}
     out["attrs"] = attrs_of(mapper)
+    out["dims"] = real_dims(case, base)
     out["rxns"] = canon_rxns([[k, r.args, list(r.stoichiometry.items())] for k, r in lm.get_raw_reactions().items()])
     try:
         out["vars"] = {"ok": sorted([k, num(v)] for k, v in lm.get_initial_conditions().items())}
@@ -238,7 +239,7 @@ def _real_worker(case):
         out["pars"] = sorted([k, num(v)] for k, v in lm.get_parameter_values().items())
     except Exception as e:  # noqa: BLE001
         out["pars"] = _exc(e)
-    rhs, sums, base_rhs = [], [], []
+    rhs, sums, base_rhs, prod = [], [], [], []
     lv = lv_of(case)
     for st in case.get("states", []):
         state = {k: fexpr.to_float(Fraction(v)) for k, v in st}
@@ -262,8 +263,43 @@ def _real_worker(case):
             base_rhs.append({"ok": [[x, num(br[x])] for x, _ in case["base"]["vars"]]})
         except Exception as e:  # noqa: BLE001
             base_rhs.append(_exc(e))
-    out["rhs"], out["sums"], out["base_rhs"] = rhs, sums, base_rhs
+        # is the base rate law the product of its arguments at the totals (the `MassAction` premise)
+        try:
+            import math
+
+            env = base.get_args(tot, 0.0)
+            prod.append({"ok": [[k, bool(Fraction(float(r.fn(*[env[a] for a in r.args])))
+                                     == math.prod([Fraction(float(env[a])) for a in r.args], start=Fraction(1)))]
+                                for k, r in base.get_raw_reactions().items()]})
+        except Exception as e:  # noqa: BLE001
+            prod.append(_exc(e))
+    out["rhs"], out["sums"], out["base_rhs"], out["prod"] = rhs, sums, base_rhs, prod
     return out
+
+
+def real_dims(case, base):
+    """per mapped reaction: substrate / product label positions and the external label string, from the real helpers"""
+    from mxlpy import label_map as L
+
+    lv = lv_of(case)
+    maps = dict((k, v) for k, v in case["maps"])
+    out = []
+    try:
+        for name, rxn in base.get_raw_reactions().items():
+            if name not in maps:
+                continue
+            bs, bp = L._unpack_stoichiometries(stoichiometries=rxn.stoichiometry)
+            ns = sum(L._get_labels_per_variable(label_variables=lv, compounds=bs))
+            np_ = sum(L._get_labels_per_variable(label_variables=lv, compounds=bp))
+            # the map counted from the front, by Python's own index rule on a sequence as long as the rate suffix
+            try:
+                front = [list(range(max(ns, np_)))[i] for i in maps[name]]
+            except IndexError:
+                front = ["IndexError"]
+            out.append([name, ns, np_, L._get_external_labels(total_product_labels=np_, total_substrate_labels=ns), front])
+    except Exception as e:  # noqa: BLE001
+        return _exc(e)
+    return {"ok": out}
 
 
 # --------------------------------------------------------------------------- oracle (declarative)
@@ -294,8 +330,8 @@ def spec_structure(case):
         m = maps[name]
         if len(m) < ns:
             return {"err": ["ValueError"]}, None
-        if any(i >= max(ns, np_) for i in m):
-            return {"err": ["IndexError"]}, None
+        if any(i >= max(ns, np_) or i < -max(ns, np_) for i in m):
+            return {"err": ["IndexError"]}, None  # `rate_suffix[i]`: -N <= i < N, a negative index counts from the end
     out = []
     for name, r in case["base"]["rxns"]:
         if name not in maps:
@@ -323,7 +359,7 @@ def spec_structure(case):
             pos = 0
             prod_names = []
             for c, k in zip(prods, nprod):
-                bits = [src[m[i]] for i in range(pos, min(pos + k, len(m)))]
+                bits = [src[m[i] if m[i] >= 0 else len(src) + m[i]] for i in range(pos, min(pos + k, len(m)))]
                 pos += k
                 prod_names.append(nm(c, bits))
             for p in prod_names:
@@ -506,10 +542,14 @@ def model_request(case):
 
 def canon_Q(m):
     return {"queries": [({"ok": q["ok"]} if "ok" in q else {"err": [q["err"][0]]}) for q in m.get("queries", [])],
-            "isos": {"ok": m.get("isos", [])}}
+            "isos": {"ok": m.get("isos", [])},
+            "dims": {"ok": [list(d) for d in m.get("dims", [])]}}
 
 
 def canon_M(m):
+    if m.get("nat") == "differs":
+        # the natural-number entry point (the one the theorems are stated for) and the integer one disagree
+        return dict(canon_Q(m), build={"err": ["model: buildModel and buildModelI differ on a map without negative indices"]})
     if "err" in m:
         return dict(canon_Q(m), build={"err": [m["err"][0]]})
     o = m["ok"]
@@ -522,6 +562,8 @@ def canon_M(m):
         "pars": sorted(o["pars"]),
         "rhs": [{"ok": sorted(r)} for r in o["rhs"]],
         "sums": [{"ok": s} for s in o["sums"]],
+        "base_rhs": [{"ok": s} for s in o["base_rhs"]],
+        "prod": [{"ok": [list(x) for x in s]} for s in o["prod"]],
     }
 
 
@@ -571,8 +613,12 @@ def judge_case(ctx, case, R, M):
                                     [None] * len(case["queries"]) if M is None else M["queries"]):
                 ctx.judge(dict(sub, queries=[q]), r, r if sq is None else sq, mq, what=what)
             ctx.judge(sub, R["isos" + key], spec_isos(case), None if M is None else M["isos"], what="get_isotopomers()" + key)
+    # 0b. the vocabulary of the theorems (nSub, nProd, extOf) against the real helpers
+    if "dims" in R:
+        ctx.judge(sub, R["dims"], R["dims"], None if M is None else M["dims"],
+                  what="substrate / product label positions and external label string (real helpers vs model)")
     # 1. accepted / rejected with the right exception class
-    if ctx.judge(sub, R["build"], sb, Mb, what="build outcome (short map -> ValueError)") != "ok":
+    if ctx.judge(sub, R["build"], sb, Mb, what="build outcome (short map -> ValueError, index outside -N..N-1 -> IndexError)") != "ok":
         return
     if "err" in R["build"]:
         return
@@ -605,6 +651,16 @@ def judge_case(ctx, case, R, M):
         if cov:
             # RHS of the labelled model: real vs Lean model (drift check only)
             ctx.judge(one, R["rhs"][i], R["rhs"][i], None if M is None else M["rhs"][i], what="labelled RHS real vs model")
+        if cov and "ok" in R["base_rhs"][i] and "ok" in R["rhs"][i]:
+            # the right-hand side of the dynamics theorems (`baseRhsOf` at `totalsEnv`) is the real base model's RHS
+            ctx.judge(one, R["base_rhs"][i], R["base_rhs"][i], None if M is None else M["base_rhs"][i],
+                      what="base derivative at the totals: real base model vs the model's baseRhsOf")
+            ctx.judge(one, R["prod"][i], R["prod"][i], None if M is None else M["prod"][i],
+                      what="rate law = product of its arguments at the totals (MassAction premise): real vs model")
+            ma = set(case.get("ma", []))
+            bad = [k for k, ok in (R["prod"][i].get("ok") or []) if k in ma and not ok]
+            if bad:
+                ctx.violation(one, bad, "a reaction generated as mass action is not the product of its arguments")
         if scope and "ok" in R["rhs"][i]:
             ctx.judge(one, R["sums"][i], R["base_rhs"][i], None if M is None else M["sums"][i],
                       finding=F_HOMODIMER if nd else None, what="summed isotopomer derivatives vs base derivative at totals")
@@ -666,6 +722,41 @@ def exhaustive_cases(tier):
             out.append(single_rxn_case(subs, prods, labels, ident + [0]))
             out.append(single_rxn_case(subs, prods, labels, ident[:-1] + [N]))
     out += wide_cases(tier)
+    out += negative_index_cases(tier)
+    return out
+
+
+def negative_index_cases(tier):
+    """maps with Python's negative indices (`rate_suffix[-1]` is the last position of the rate suffix, external 1s
+    included) and indices below -N (IndexError): every map over -N-1 .. N-1 with a negative entry for N <= 2 padded
+    positions; for N = 3 every permutation with every non-empty subset of entries written from the end, plus one
+    index below -N per position (all 7^3 maps in thorough); seed-independent"""
+    out = []
+    shapes = [[], [1], [2], [3], [1, 1], [1, 2], [2, 1], [0, 1]]
+    for ss in shapes:
+        for ps in shapes:
+            ns, np_ = sum(ss), sum(ps)
+            N = max(ns, np_)
+            if N == 0 or N > 3:
+                continue
+            subs = [f"S{i}" for i in range(len(ss))]
+            prods = [f"P{i}" for i in range(len(ps))]
+            labels = {**dict(zip(subs, ss)), **dict(zip(prods, ps))}
+            if N <= 2 or tier == "thorough":
+                ms = [m for m in it.product(range(-N - 1, N), repeat=N) if min(m) < 0]
+            else:
+                ms = []
+                for perm in it.permutations(range(N)):
+                    for k in range(1, 2 ** N):
+                        ms.append(tuple(perm[i] - N if (k >> i) & 1 else perm[i] for i in range(N)))
+                    for i in range(N):
+                        ms.append(tuple(-N - 1 if j == i else perm[j] for j in range(N)))
+            for m in ms:
+                out.append(single_rxn_case(subs, prods, labels, m))
+            # a short map is rejected before any index is read; a long one may carry negative entries beyond the products
+            if ns > 0:
+                out.append(single_rxn_case(subs, prods, labels, [-1] * (ns - 1)))
+            out.append(single_rxn_case(subs, prods, labels, [-1] * N + [-N - 1]))
     return out
 
 
@@ -794,6 +885,11 @@ def random_case(rng):
             m = ident[: rng.randint(ns, np_ - 1)]  # covers the substrates but not the products
         else:
             m = ident
+        if N and m and rng.random() < 0.15:
+            # the same positions written from the end (Python's negative indices); sometimes one below -N
+            m = [i - N if (0 <= i < N and rng.random() < 0.5) else i for i in m]
+            if rng.random() < 0.15:
+                m[rng.randrange(len(m))] = -N - rng.randint(1, 2)
         maps.append([name, m])
     init, init_as_int = [], []
     for c in cpds:
